@@ -83,6 +83,23 @@ def gen_history(rng, n_ops, k=0):
         ops.append({'op': 'open', 'i': ci, 'flags': O_NONBLOCK, 'fuse_flags': 0}); nh += 1; hflags.append(O_NONBLOCK)
         ops.append({'op': 'read', 'i': ci, 'h': nh - 1, 'size': 64, 'off': 0, 'flags': O_NONBLOCK})
         ops.append({'op': 'getattr', 'i': ci, 'h': None})
+    # SETATTR over the subsets of the validity bits {ATIME, MTIME, ATIME_NOW, MTIME_NOW, SIZE, MODE, with/without handle}
+    # (enumerated deterministically over the histories: all 16 time-bit combinations in every history) x random
+    # {UID, GID, KILL_SUIDGID, CTIME}; explicit times are distinctive constants far from now with non-zero nanoseconds;
+    # each request is preceded by a getattr so that "unchanged / set / now" can be told apart afterwards
+    ops.append({'op': 'open', 'i': 1, 'flags': O_RDWR | O_NONBLOCK, 'fuse_flags': 0}); th = nh; nh += 1; hflags.append(O_RDWR | O_NONBLOCK)
+    for j in range(16):
+        idx = k * 16 + j
+        valid = 0
+        for bit, m in enumerate([0x10, 0x20, 0x80, 0x100, 0x8, 0x1]):
+            if (idx >> bit) & 1: valid |= m
+        with_handle = (idx >> 6) & 1
+        for m in (0x2, 0x4, 0x800, 0x400):
+            if rng.random() < 0.25: valid |= m
+        ops.append({'op': 'getattr', 'i': 1, 'h': None})
+        ops.append({'op': 'setattr', 'i': 1, 'h': th if with_handle else None, 'valid': valid, 'mode': rng.choice([0o644, 0o640, 0o4755]), 'uid': 0, 'gid': rng.choice([0, 1000]),
+                    'size': rng.choice([0, 5, 11, 20]), 'atime': 1000000000 + 1000 * idx + 1, 'ansec': 111111111 + j, 'mtime': 1100000000 + 1000 * idx + 2, 'mnsec': 222222222 + j,
+                    'time_probe': True})
     n_ops += len(ops) - 9
     while len(ops) < n_ops:
         r = rng.random()
@@ -163,6 +180,21 @@ def canon_reply(o, kv):
     if o['op'] == 'statfs': d = {'errno': d['errno']}
     return d
 
+def parse_ts(v):
+    a, b = v.split('.'); return (int(a), int(b))
+
+def time_classes(o_prev, r_prev, o, r):
+    """(class of atime, class of mtime) after SETATTR o given the getattr reply just before: 'keep' | 'set' | 'now' | 'other'"""
+    if o_prev['op'] != 'getattr' or errno_of(r_prev) != 0 or 'atime' not in r or 'atime' not in r_prev: return None
+    now = int(r.get('now', '0')); out = []
+    for key, req in (('atime', (o['atime'], o['ansec'])), ('mtime', (o['mtime'], o['mnsec']))):
+        before, after = parse_ts(r_prev[key]), parse_ts(r[key])
+        if after == req: out.append('set')
+        elif after == before: out.append('keep')
+        elif abs(after[0] - now) <= 30: out.append('now')
+        else: out.append('other:%d.%d' % after)
+    return tuple(out)
+
 def replay(path):
     return run_check('quick', json.load(open(path)).get('seed', 1))
 
@@ -222,7 +254,7 @@ def run_check(tier, seed):
             if rc != 0 or len(hs) != len(hist):
                 broken.append({'kind': 'harness-run', 'what': mode + ' run', 'rc': rc, 'log': out[-1500:]})
             runs[mode] = hs
-        exprs = []; exmap = []
+        exprs = []; exmap = []; time_cases = []
         if 'pt' in runs and 'shadow' in runs and len(runs['pt']) == len(hist) and len(runs['shadow']) == len(hist):
             for hh, a, b in zip(hist, runs['pt'], runs['shadow']):
                 rin = {'seed': seed, 'history': hh['k'], 'cfg': hh['cfg'], 'ops': [op_line(o) for o in hh['ops']]}
@@ -243,6 +275,15 @@ def run_check(tier, seed):
                     if o['op'] in ('create', 'mkdir', 'mknod', 'symlink') and errno_of(ra['r']) == 0 and o['uid'] != 0 and int(ra['r']['uid']) != o['uid']:
                         findings.append({'what': 'request %d (%s): object created for uid %d is owned by uid %s' % (j, op_line(o), o['uid'], ra['r']['uid']),
                                          'input': rin, 'sig': {'kind': 'owner', 'op': o['op']}})
+                    # atime / mtime after a SETATTR: unchanged, set to the request's value, or set to now -- same class as the direct calls
+                    if o.get('time_probe') and j > 0 and errno_of(ra['r']) == 0 and errno_of(rb['r']) == 0 and not diverged:
+                        ka, kb = time_classes(hh['ops'][j - 1], a['ops'][j - 1]['r'], o, ra['r']), time_classes(hh['ops'][j - 1], b['ops'][j - 1]['r'], o, rb['r'])
+                        if ka is not None and kb is not None:
+                            nontriv.add(('setattr-times', o['valid'] & 0x1b8, ka))
+                            if ka != kb:
+                                findings.append({'what': 'request %d (%s): atime/mtime afterwards are (%s, %s) but the direct calls give (%s, %s)' % (j, op_line(o), ka[0], ka[1], kb[0], kb[1]),
+                                                 'input': rin, 'sig': {'kind': 'times', 'valid_time_bits': o['valid'] & 0x1b0}})
+                            time_cases.append((hh['k'], j, o, ka))
                     if not diverged and (ca != cb or ra['tree'] != rb['tree']):
                         diverged = True
                         fld = sorted(k for k in set(ca) | set(cb) if ca.get(k) != cb.get(k)) or ['tree']
@@ -284,6 +325,23 @@ def run_check(tier, seed):
                                'request': op_line(mops[first][0]) if first is not None else None,
                                'implementation': mops[first][1]['raw'] if first is not None else None, 'model': mv,
                                'ops': [op_line(o) for o, r in mops][: (first or 0) + 1]})
+        if coq_ok and time_cases:
+            def tvc(c, o, which):
+                if c == 'keep': return 'TKeep'
+                if c == 'now': return 'TNow'
+                return '(TSet %d %d)' % ((o['atime'], o['ansec']) if which == 0 else (o['mtime'], o['mnsec']))
+            texprs = []
+            for hk, j, o, (ca_, cm_) in time_cases:
+                e = '(let e := setattr_time_effect %d %d %d %d %d in tv_eqb (fst e) %s' % (o['valid'], o['atime'], o['ansec'], o['mtime'], o['mnsec'], tvc(ca_, o, 0))
+                # a size change sets mtime to now before the utimens step: an omitted mtime is then "now" (not compared)
+                e += (' && tv_eqb (snd e) %s)' % tvc(cm_, o, 1)) if not (o['valid'] & 8 and (not o['valid'] & 0x30 or not o['valid'] & 0x120)) else ')'
+                texprs.append(e)
+            bad, errs = coq_check_cases('c05_times', COQ_HEADER, texprs)
+            for e_ in errs: broken.append({'kind': 'correspondence', 'name': 'coq evaluation of time cases failed', 'log': e_['log']})
+            ev.cov['model_vs_impl_time_cases'] = len(texprs)
+            for i in bad[:6]:
+                hk, j, o, kl = time_cases[i]
+                broken.append({'kind': 'correspondence', 'name': 'Model setattr_time_effect vs PassthroughFs', 'history': hk, 'request': op_line(o), 'observed_classes': kl})
     finally:
         shutil.rmtree(base, ignore_errors=True)
     ev.cov['evaluations'] = evals
